@@ -158,6 +158,9 @@ def build(case):
         if ph == 'act':
             lines.append('$ env -0 > {OBS}/act.env; pwd > {OBS}/act.pwd' if not case.get('py_act')
                          else '% {PY} {PROBE} {OBS}/pyact')
+            if case.get('act_transformed'):
+                # the action to check is the same process of the act phase when its output is transformed
+                lines.append('  -transformed-by char-case -to-upper')
             continue
         if ph == 'setup':
             # learn the sandbox directories
@@ -377,7 +380,7 @@ def histories(draw, max_ops=14):
                 ops[ph].append(['probe'])
     # make sure something is observed late
     ops['cleanup'].append(['probe'])
-    case = {'ops': ops, 'py_act': draw(st.integers(0, 7)) == 0}
+    case = {'ops': ops, 'py_act': draw(st.integers(0, 7)) == 0, 'act_transformed': draw(st.integers(0, 3)) == 0}
     if draw(st.integers(0, 3)) == 0:
         case['fail_after'] = draw(st.sampled_from(['setup', 'setup', 'before-assert', 'assert']))
         # symbols whose definition is skipped do not exist in [cleanup] (what a reference to one does is another
